@@ -123,7 +123,9 @@ fn run(args: &[String]) -> Result<i32, String> {
                     break;
                 }
                 n += batch.len();
-                let chunk = (batch.len() + threads - 1) / threads;
+                // (at least 400 cases per thread: small universes run on ONE thread, so that every case shares its history with all the others)
+                // (a batch of fewer than 100 cases is a scale universe - few, very large cases: spread them out)
+                let chunk = if batch.len() < 100 { (batch.len() + threads - 1) / threads } else { ((batch.len() + threads - 1) / threads).max(400) };
                 let engine_s = engine.clone();
                 let parts: Vec<report::Report> = std::thread::scope(|sc| {
                     let hs: Vec<_> = batch
@@ -163,9 +165,18 @@ fn run(args: &[String]) -> Result<i32, String> {
                                 }
                                 if engine == "parse" {
                                     // every text once more, after all the others of this chunk have been parsed
-                                    for line in part {
-                                        if let Ok(case) = parse_case_line(line) {
-                                            parse::replay_parse_again(&case, &mut rep);
+                                    let cases: Vec<J> = part.iter().filter_map(|l| parse_case_line(l).ok()).collect();
+                                    for case in &cases {
+                                        parse::replay_parse_again(case, &mut rep);
+                                    }
+                                    // a text the parser REJECTS must not influence the texts parsed after it: after each of
+                                    // (at most 120) rejected texts, four accepted texts of the chunk are parsed again
+                                    let accepted: Vec<&J> = cases.iter().filter(|c| c["x"]["ok"].as_bool() == Some(true)).collect();
+                                    if !accepted.is_empty() {
+                                        for (k, r) in cases.iter().filter(|c| c["x"]["ok"].as_bool() == Some(false)).take(120).enumerate() {
+                                            for d in 0..4usize {
+                                                parse::replay_parse_after(r, accepted[(k * 4 + d) % accepted.len()], &mut rep, (k + d) % 2 == 0);
+                                            }
                                         }
                                     }
                                 }
@@ -185,6 +196,9 @@ fn run(args: &[String]) -> Result<i32, String> {
                 });
                 for p in parts {
                     rep.merge(p);
+                }
+                if engine == "parse" {
+                    parse::hammer(&batch, &mut rep);
                 }
             }
             if n == 0 {
